@@ -324,6 +324,16 @@ fn ident(id: &str, v: &[f64]) -> Vec<Finding> {
             Some((gamma::gamma_li(x, y) + gamma::gamma_ui(x, y), g, 1e-10, g.abs(), 0.0, ""))
         }),
         "beta_reg(a,b,x)+beta_reg(b,a,1-x)=1" => quick_call(|| Some((beta::beta_reg(x, y, z) + beta::beta_reg(y, x, 1.0 - z), 1.0, 1e-10, 1.0, 0.0, if x.max(y) < 100.0 { "max(a,b)<100" } else { "max(a,b)>=100" }))),
+        // closed forms of the incomplete functions (exact mathematics, no second special function involved):
+        // I_x(a,1) = x^a and P(1,x) = 1 - exp(-x); evaluated also at tiny x, where the absolute bound applies
+        "beta_reg(a,1,x)=x^a" => quick_call(|| Some((beta::beta_reg(x, 1.0, y), y.powf(x), 1e-10, 1.0, 0.0, if y < 1e-15 { "x<1e-15" } else { "" }))),
+        "gamma_lr(1,x)=1-exp(-x)" => guarded(move || Some((gamma::gamma_lr(1.0, x), -(-x).exp_m1(), 1e-10, 1.0, 0.0, if x < 1e-15 { "x<1e-15" } else { "" }))),
+        "gamma_lr(a,x)>=x^a*exp(-x)/gamma(a+1)" => guarded(move || {
+            // first term of the series is a lower bound of P(a,x); compared with the absolute bound only
+            let lo = (x * y.ln() - y - gamma::ln_gamma(x + 1.0)).exp();
+            let v = gamma::gamma_lr(x, y);
+            Some((v.min(lo), lo, 1e-10, 1.0, 0.0, if y < 1e-15 { "x<1e-15" } else { "" }))
+        }),
         "beta(a,b)=beta(b,a)" => quick_call(|| {
             let (a, b) = (beta::beta(x, y), beta::beta(y, x));
             if !a.is_normal() || !b.is_normal() {
@@ -515,6 +525,19 @@ pub fn run(cx: &mut Ctx) {
         let bx = if cx.r.below(2) == 0 { cx.r.unit() } else { m + cx.r.range(-4.0, 4.0) * sd };
         let bx = ((bx * 1048576.0).floor() / 1048576.0).clamp(1.0 / 1048576.0, 1.0 - 1.0 / 1048576.0);
         push(cx, "beta_reg(a,b,x)+beta_reg(b,a,1-x)=1", &[ba, bb, bx]);
+        let sa = cx.r.log_range(0.005, 50.0);
+        let tx = match cx.r.below(4) {
+            0 => cx.r.log_range(1e-300, 1e-17),
+            1 => cx.r.log_range(1e-17, 1e-14),
+            2 => cx.r.log_range(1e-14, 1e-3),
+            _ => cx.r.unit().max(1e-6),
+        };
+        if tx > 0.0 && tx < 1.0 {
+            push(cx, "beta_reg(a,1,x)=x^a", &[sa, tx]);
+        }
+        let gx = if cx.r.below(2) == 0 { cx.r.log_range(1e-300, 1e-12) } else { cx.r.log_range(1e-12, 50.0) };
+        push(cx, "gamma_lr(1,x)=1-exp(-x)", &[gx]);
+        push(cx, "gamma_lr(a,x)>=x^a*exp(-x)/gamma(a+1)", &[sa, gx]);
         let (ga, gb) = (dyadic(cx, 0.0, 300.0, 8) + 1.0 / 256.0, dyadic(cx, 0.0, 300.0, 8) + 1.0 / 256.0);
         push(cx, "beta(a,b)=beta(b,a)", &[ga, gb]);
         push(cx, "beta(a+1,b)*(a+b)=beta(a,b)*a", &[ga, gb]);
